@@ -1,46 +1,25 @@
 /-
-  GabiModel.Ops — dispatch of line-protocol operations to model functions.
+  GabiModel.Ops — registry of line-protocol handlers. Each area has its own module
+  GabiModel/Ops/<Area>.lean exporting `handle : Handler`; add it to `handlers` below.
 -/
-import Lean.Data.Json
-import GabiModel.Wire
-import GabiModel.HashTool
+import GabiModel.Ops.Base
+import GabiModel.Ops.Basic
+import GabiModel.Ops.KeysOps
 namespace Gabi.Ops
 open Lean Gabi Gabi.Wire
 
-structure State where
-  dummy : Unit := ()
+def handlers : List Handler := [
+  Basic.handle,
+  KeysOps.handle
+]
 
-def State.init : State := {}
-
-def run (st : State) (op : String) (j : Json) : R (State × String) := do
-  match op with
-  | "hashcommit" =>
-    let vals ← getInts j "vals"
-    let issig ← getBool j "issig"
-    pure (st, hexOfNat (hashCommit vals issig))
-  | "der" =>
-    let vals ← getInts j "vals"
-    let issig ← getBool j "issig"
-    pure (st, hexOfBytes (hashCommitInput vals issig))
-  | "sha256" =>
-    let b ← getBytes j "data"
-    pure (st, hexOfBytes (Sha256.hash b))
-  | "inthash" =>
-    let b ← getBytes j "data"
-    pure (st, hexOfNat (intHashSha256 b))
-  | "hashnumber" =>
-    let a ← getOptInt j "a"
-    let b ← getOptInt j "b"
-    let idx ← getInt j "index"
-    let bl ← getNat j "bitlen"
-    pure (st, hexOfNat (getHashNumber a b idx bl))
-  | "challenge" =>
-    let ctx ← getInt j "context"
-    let nonce ← getInt j "nonce"
-    let cs ← getInts j "contribs"
-    let issig ← getBool j "issig"
-    pure (st, hexOfNat (createChallenge ctx nonce cs issig))
-  | _ => throw s!"unknown op {op}"
+def run (st : State) (op : String) (j : Json) : R (State × String) :=
+  let rec go : List Handler → R (State × String)
+    | [] => throw s!"unknown op {op}"
+    | h :: hs => match h st op j with
+      | some r => r
+      | none => go hs
+  go handlers
 
 def step (st : State) (j : Json) : State × String :=
   match getStr j "op" with
